@@ -34,6 +34,9 @@ pub enum AddKind {
     /// a timestamp beyond 2^64 ns (about 585 years, "never"-style events). Such events are always cancelled by the
     /// interpreter before it drains the queue (walking the calendar that far is a matter of cost, not semantics).
     Huge(u8),
+    /// 65 + (k % 40) events at exactly the current time, added back to back (more than any small fixed capacity of
+    /// the current-instant FIFO); expanded into single `Zero` adds by the interpreter
+    ZeroBurst(u8),
 }
 
 #[derive(Clone, Debug, Serialize, Deserialize, PartialEq)]
@@ -89,6 +92,7 @@ pub fn add_kind_strategy() -> impl Strategy<Value = AddKind> {
         3 => (0u32..5_000).prop_map(AddKind::Small),
         3 => (0u16..40, 0u16..4).prop_map(|(w, d)| AddKind::Widths(w, d)),
         1 => (0u8..8).prop_map(AddKind::Huge),
+        1 => (0u8..40).prop_map(AddKind::ZeroBurst),
     ]
 }
 
@@ -307,6 +311,7 @@ pub struct Flags {
     pub zero_add_after_fetch: bool,
     pub outlier: bool,
     pub huge: bool,
+    pub zero_burst: bool,
     pub cancel_fetched: bool,
     pub tie_groups: u32,
     pub tie_zero_and_older: bool,
@@ -547,6 +552,21 @@ pub fn interpret<E: Payload>(params: &QParams, ops: &[Op], opt: &Options) -> Res
     let mut last_nodes: BTreeMap<usize, usize> = BTreeMap::new(); // id -> addr
     let mut leaked_nodes = 0usize;
 
+    // bursts are written out as single adds (positions such as `drop_at` refer to the written-out history)
+    let expanded: Vec<Op>;
+    let ops: &[Op] = if ops.iter().any(|o| matches!(o, Op::Add(AddKind::ZeroBurst(_)))) {
+        expanded = ops
+            .iter()
+            .flat_map(|o| match o {
+                Op::Add(AddKind::ZeroBurst(k)) => vec![Op::Add(AddKind::Zero); 65 + (*k as usize % 40)],
+                other => vec![other.clone()],
+            })
+            .collect();
+        flags.zero_burst = true;
+        &expanded
+    } else {
+        ops
+    };
     let total_ops = ops.len();
     let mut step = 0usize;
     let mut draining = false;
@@ -581,7 +601,7 @@ pub fn interpret<E: Payload>(params: &QParams, ops: &[Op], opt: &Options) -> Res
                 }
                 let bucket_start = cur - cur % t;
                 let time = match kind {
-                    AddKind::Zero => cur,
+                    AddKind::Zero | AddKind::ZeroBurst(_) => cur,
                     AddKind::TieWithPending(i) => {
                         if pending.is_empty() {
                             cur
